@@ -812,8 +812,10 @@ func (e *vhSM) applicable(kinds []int) []int {
 		case evFinalization:
 			ok = e.pendingFin() != nil
 		case evHeightCommitted:
-			ok = live && e.rlc.HeightCommitted != nil &&
-				(e.rlc.S == tsi.StepCommitWait || e.rlc.S == tsi.StepAwaitingFinalization)
+			// the mirror closes the channel when it commits the NEXT height while the state
+			// machine is still at this one; a state machine that lags (slow strategy or
+			// driver) can get the signal in any step, before the view that shows the quorum
+			ok = live && e.rlc.HeightCommitted != nil
 		case evBlockData:
 			ok = live
 		}
